@@ -1,7 +1,7 @@
 SPECIFICATION SSpec
 CONSTANT L = 9
 CONSTANT Kind = "LO"
-CONSTANT LOBound = "asis"
+CONSTANT LOBound = "repaired"
 CONSTANT Depth = 13
 CONSTRAINT Emit
 CONSTRAINT Stop
